@@ -117,9 +117,9 @@ func flushCount(total, hdr int64) int {
 
 func (d *driver) flushNo(isQ4 bool, f int) int {
 	ref := d.w.refOfFile(f)
-	k := flushCount(ref.OdsFileSize, ref.HdrSize)
+	k := flushCount(int64(len(ref.OdsImage())), ref.HdrSize)
 	if isQ4 {
-		k = flushCount(ref.Q4FileSize, 0)
+		k = flushCount(int64(len(ref.Q4Image())), 0)
 	}
 	if k == 0 {
 		return 0
@@ -442,7 +442,9 @@ func sigDisk(a diskAbs, h int) string {
 
 // checkCrashState runs the observations of C07 on a crash copy. model may be nil (no prediction).
 func (d *driver) checkCrashState(dir string, c *tlcCase, label string) {
+	exactContent = true // the crash copy is compared byte by byte with the images of the complete files
 	abs := d.w.abstract(dir)
+	exactContent = false
 	d.rep.Count("crash_states_checked", 1)
 	replayObj := func(extra map[string]any) map[string]any {
 		m := map[string]any{"square": d.sqName, "variant": d.variant, "label": label, "disk_at_crash": abs}
@@ -761,6 +763,8 @@ func TestDriver(t *testing.T) {
 		if big {
 			d.scriptMem = map[string]bool{}
 		}
+		t0 := time.Now()
+		defer func() { rep.Set("seconds/"+sqName, int(time.Since(t0).Seconds())) }()
 		for i := range sel {
 			c := sel[i]
 			out := d.replay(c)
@@ -784,24 +788,62 @@ func TestDriver(t *testing.T) {
 		}
 	}
 
-	// small square (ODS width 2): every case
-	small, err := storeref.Build("w2", seed, 2, int(seed%2))
+	// the independent file images must be what a complete put writes (else the content-based
+	// abstraction below means nothing: conformance drift of the file format)
+	checkImages := func(ref *storeref.Ref) {
+		dir, _ := os.MkdirTemp(root, "img")
+		defer os.RemoveAll(dir)
+		st, err := store.NewStore(&store.Parameters{}, dir)
+		if err != nil {
+			t.Fatal(err)
+		}
+		if err := st.PutODSQ4(ctx, ref.Roots, 1, ref.EDS); err != nil {
+			rep.Inconclusivef("reference put of square %s failed: %v", ref.Name, err)
+			return
+		}
+		w := &world{data: ref, empty: empty}
+		ob, _ := os.ReadFile(odsPath(dir, ref))
+		qb, _ := os.ReadFile(q4Path(dir, ref))
+		if string(ob) != string(ref.OdsImage()) || string(qb) != string(ref.Q4Image()) {
+			rep.Inconclusivef("conformance drift: the files written by a complete put of square %s (%d / %d bytes) differ from the format images (%d / %d bytes)",
+				ref.Name, len(ob), len(qb), len(ref.OdsImage()), len(ref.Q4Image()))
+		}
+		_ = w
+	}
+
+	// small squares (ODS width 2, one buffered write): WITHOUT tail padding for every case (every share
+	// is stored: a reserved-but-unwritten tail cannot hide behind the padding rule), and with one
+	// padding share for a third of them
+	small, err := storeref.Build("w2", seed, 2, 0)
 	if err != nil {
 		t.Fatal(err)
 	}
+	smallPad, err := storeref.Build("w2pad", seed, 2, 1)
+	if err != nil {
+		t.Fatal(err)
+	}
+	checkImages(small)
+	checkImages(smallPad)
 	sel := cases
 	if smallMax > 0 && len(sel) > smallMax {
 		sel = pick(rnd, cases, smallMax)
 	}
 	run("w2", small, "mid", sel, false)
+	run("w2pad", smallPad, "mid", pick(rnd, sel, len(sel)/5), false)
 
 	// large square: several buffered writes; cases whose crash point lies in an operation on the data
 	// block (or a restart after one), with the three instantiations of "partial"
 	if bigN > 0 {
-		big, err := storeref.Build(fmt.Sprintf("w%d", bigW), seed, bigW, 1+int(seed%7))
+		// several buffered writes; no tail padding (see above), and a padded one for the "mid" variant
+		big, err := storeref.Build(fmt.Sprintf("w%d", bigW), seed, bigW, 0)
 		if err != nil {
 			t.Fatal(err)
 		}
+		bigPad, err := storeref.Build(fmt.Sprintf("w%dpad", bigW), seed, bigW, 1+int(seed%7))
+		if err != nil {
+			t.Fatal(err)
+		}
+		checkImages(big)
 		var rel []tlcCase
 		if p := os.Getenv("VERIF_CASES_BIG"); p != "" {
 			if err := vh.ReadJSON(p, &rel); err != nil {
@@ -816,8 +858,9 @@ func TestDriver(t *testing.T) {
 		}
 		rep.Set("big_relevant_cases", len(rel))
 		for _, v := range []string{"first", "mid", "last"} {
-			run(fmt.Sprintf("w%d/%s", bigW, v), big, v, pick(rnd, rel, bigN/3), true)
+			run(fmt.Sprintf("w%d/%s", bigW, v), big, v, pick(rnd, rel, bigN/4), true)
 		}
+		run(fmt.Sprintf("w%dpad/mid", bigW), bigPad, "mid", pick(rnd, rel, bigN/4), true)
 	}
 	rep.Set("seed", seed)
 	rep.Set("cases_in", len(cases))
